@@ -166,3 +166,10 @@ MANIFEST_ENTRY = dict(
     note='Bounded histories/skeletons (tier B); numpy/torch global generators and hash randomisation only at process level (bounded set of hash seeds); cross-version reproducibility not decided.',
 )
 END_MANIFEST_ENTRY = True
+
+
+SENTINELS = globals().get('SENTINELS', []) + [
+    Sentinel('roll-out-samples-the-next-state-from-the-ambient-generator', 'msdm.core.mdp.policy', "            ns = mdp.next_state_dist(s, a).sample(rng=rng)\n",
+             "            ns = mdp.next_state_dist(s, a).sample()\n", ['frame/Policy.run_on']),
+    Sentinel('semi-mdp-seed-0-treated-as-unseeded', 'msdm.core.semimdp.semimdp', "        if self.seed is None:\n", "        if not self.seed:\n", ['rt/semimdp-fixed-seeds']),
+]
